@@ -46,7 +46,7 @@ func main() {
 	var err error
 	switch sub {
 	case "kv":
-		err = core.RunKv(w, *seed, *tier, *replay)
+		err = core.RunFamily(core.KvFamily(), w, *seed, *tier, *replay)
 	case "list":
 		err = core.RunFamily(core.ListFamily(), w, *seed, *tier, *replay)
 	case "hash":
